@@ -73,6 +73,64 @@ pub fn program(r: &mut Rng, with_real: bool) -> (Model, String) {
     (m, text)
 }
 
+/// MIXED programs: 1-2 discrete declarations, 1-2 bounded Real / NonNegativeReal declarations; every side is
+/// `D ± Σ cᵢ·realᵢ` with `D` an arbitrary (piecewise-linear, logic) expression over the DISCRETE variables, so that each
+/// residual of the reference's discrete enumeration is a small LP over the reals.
+pub fn mixed_program(r: &mut Rng) -> (Model, String) {
+    use rooc::model_transformer::{Constraint, Exp};
+    use rooc::{BinOp, OptimizationType};
+    let nd = 1 + r.below(2);
+    let nr = 1 + r.below(2);
+    let mut ds = discrete_decls(r, nd, false);
+    let disc = ds.clone();
+    let rnames = ["u", "v"];
+    let mut reals = vec![];
+    for k in 0..nr {
+        let ty = if r.chance(1, 2) { let lo = r.range(-3, 1) as f64; VariableType::Real(lo, lo + r.range(1, 5) as f64) }
+                 else { let lo = r.range(0, 2) as f64; VariableType::NonNegativeReal(lo, lo + r.range(1, 5) as f64) };
+        reals.push(VarDecl { name: rnames[k].to_string(), ty });
+    }
+    ds.extend(reals.clone());
+    let fractional = r.chance(1, 3);
+    let cfg = ModelCfg { max_vars: 2, depth: 2, logic: true, piecewise: true, unbounded: false, fractional, strict_cmp: false, hostile: false };
+    let lin = |r: &mut Rng| -> Exp {
+        let mut e: Option<Exp> = None;
+        for d in &reals {
+            if r.chance(1, 4) { continue; }
+            let t = if r.chance(1, 3) { Exp::Variable(d.name.clone()) } else { Exp::BinOp(BinOp::Mul, Box::new(Exp::Number(gen_model::coef(r, fractional))), Box::new(Exp::Variable(d.name.clone()))) };
+            e = Some(match e { None => t, Some(p) => Exp::BinOp(if r.chance(2, 3) { BinOp::Add } else { BinOp::Sub }, Box::new(p), Box::new(t)) });
+        }
+        e.unwrap_or(Exp::Variable(reals[0].name.clone()))
+    };
+    let side = |r: &mut Rng| -> Exp {
+        let l = lin(r);
+        match r.below(4) {
+            0 => l,
+            1 => Exp::BinOp(BinOp::Add, Box::new(gen_model::num_exp(r, &disc, &cfg, 2)), Box::new(l)),
+            2 => Exp::BinOp(BinOp::Sub, Box::new(l), Box::new(gen_model::num_exp(r, &disc, &cfg, 1))),
+            _ => Exp::BinOp(BinOp::Add, Box::new(l), Box::new(Exp::Number(gen_model::constant(r, fractional)))),
+        }
+    };
+    let mut cons = vec![];
+    for k in 0..1 + r.below(3) {
+        let rhs = if r.chance(2, 3) { Exp::Number(gen_model::constant(r, fractional)) } else { gen_model::num_exp(r, &disc, &cfg, 1) };
+        cons.push(Constraint::new(side(r), gen_model::comparison(r), rhs, if r.chance(1, 2) { String::new() } else { format!("m{}", k) }));
+    }
+    if r.chance(1, 2) {
+        // a purely discrete constraint next to the mixed ones
+        let has_bool = disc.iter().any(|d| matches!(d.ty, VariableType::Boolean));
+        if has_bool && r.chance(1, 2) { cons.push(Constraint::new_logic_assertion(gen_model::bool_exp(r, &disc, &cfg, 2), "a".into())); }
+        else { cons.push(Constraint::new(gen_model::num_exp(r, &disc, &cfg, 2), gen_model::comparison(r), Exp::Number(gen_model::constant(r, false)), "d".into())); }
+    }
+    let opt = match r.below(5) { 0 | 1 => OptimizationType::Min, 2 | 3 => OptimizationType::Max, _ => OptimizationType::Satisfy };
+    let obj = if matches!(opt, OptimizationType::Satisfy) { Exp::Number(0.0) } else { side(r) };
+    let m = gen_model::build(opt, obj, cons, &ds);
+    let sp = Spelling { aliases: r.chance(1, 2), implicit_mul: r.chance(1, 2), redundant_parens: r.chance(1, 2), named_consts: r.chance(1, 3) };
+    let mut pr = r.fork();
+    let text = Printer { r: &mut pr, sp, consts: vec![] }.program(&m);
+    (m, text)
+}
+
 pub fn one(m: &Model, text: &str, tag: &str) -> Case {
     let mut c = Case::default();
     let out = solve_text(text);
@@ -126,6 +184,8 @@ pub fn generate(seed: u64, n: usize, _thorough: bool, _corpus: Option<&str>) -> 
         out.push(one(&m, &text, if i % 2 == 0 { "discrete" } else { "discrete" }));
         // every second program also goes through the full diff of the `solve_using` glue
         if i % 2 == 0 { if let Some(c) = glue(&text, "discrete") { out.push(c); } }
+        // every third round a MIXED program (discrete + bounded Real), judged by the mixed reference
+        if i % 3 == 0 { let (m, text) = mixed_program(&mut r); out.push(one(&m, &text, "mixed")); }
     }
     // fixed programs for the arms the random stream rarely reaches: `Linearization(..)` errors, the variable-free branch of
     // `auto_solver` (solved / infeasible), an unbounded model
